@@ -31,7 +31,14 @@ NextT(ts, to) == IF to <= Len(ts) THEN ts[to] ELSE ts[Len(ts)]
 PrevT(ts, to) == IF to = 1 THEN 0 ELSE ts[to - 1]
 TArgs(ts, to) == {NextT(ts, to), PrevT(ts, to), Unrelated}
 Jump(at, to, targ) == [at |-> at, to |-> to, targ |-> targ]
-Row(ts, js) == [times |-> ts, jumps |-> js]
+Row(ts, js) == [times |-> ts, jumps |-> js, diffs |-> <<>>]
+\* difficulty groups: instructions that differ only in difficulty mask (bits E=1 N=2 H=4 L=8, 255 = every
+\* difficulty) and argument; the decompiler may fold consecutive ones into one difficulty switch, which is
+\* written once with one time -- legal only when the stored times of the folded copies are equal
+TV3 == {0, 3, 10}
+MaskSeqs == { <<1, 2, 4, 8>>, <<1, 2, 4>>, <<2, 4, 8>>, <<1, 2, 12>>, <<3, 4, 8>>, <<255, 1, 2, 4>>, <<1, 2, 4, 255>>,
+              <<1, 2, 255, 4>>, <<1, 2>>, <<4, 8>> }
+Rows3 == UNION {{[times |-> ts, jumps |-> <<>>, diffs |-> ms] : ts \in TimeSeqs(TV3, Len(ms))} : ms \in MaskSeqs}
 
 Rows0 == UNION {{Row(ts, <<>>) : ts \in TimeSeqs(TV, n)} : n \in 1..MaxLen}
 OneJump(ts) ==
@@ -44,7 +51,7 @@ TwoJumps(ts) ==
 Rows2 == UNION {UNION {TwoJumps(ts) : ts \in TimeSeqs(TV2, n)} : n \in 2..MaxLenJ2}
 
 VARIABLE row
-Init == row \in Rows0 \cup Rows1 \cup Rows2
+Init == row \in Rows0 \cup Rows1 \cup Rows2 \cup Rows3
 Next == UNCHANGED row
 Spec == Init /\ [][Next]_row
 
@@ -98,7 +105,15 @@ DocLoop == << [k |-> "nop"], [k |-> "loop", body |-> << [k |-> "nop"], [k |-> "r
 ASSUME Verdict(DocLoop, << 4, 10 >>, << Jump(2, 1, 0) >>) = "ok"
 ASSUME Verdict(DocLoop, << 4, 10 >>, << Jump(2, 1, 4) >>) = "bad:jump-time"
 
-ASSUME LET R == SetToSeq(Rows0 \cup Rows1 \cup Rows2) IN
+\* the judge on difficulty switches: one written case = one instruction at the statement's time
+SwCall(cases) == [k |-> "expr", e |-> [k |-> "call", name |-> [ins |-> 101], args |-> << [k |-> "ds", cases |-> cases] >>]]
+Lit(v) == [k |-> "int", v |-> v]
+DocSwitch == << [k |-> "abs", t |-> 3], SwCall(<< Lit(1), Lit(2), [k |-> "hole"], Lit(4) >>), [k |-> "rel", e |-> Lit(7)], Instr >>
+ASSUME Verdict(DocSwitch, << 3, 3, 3, 10 >>, <<>>) = "ok"
+ASSUME Verdict(DocSwitch, << 3, 3, 10, 10 >>, <<>>) = "bad:times"      \* a copy stored at another time was folded in
+ASSUME Verdict(DocSwitch, << 3, 3, 10 >>, <<>>) = "bad:count"
+
+ASSUME LET R == SetToSeq(Rows0 \cup Rows1 \cup Rows2 \cup Rows3) IN
        /\ ndJsonSerialize(IOEnv.OUT, R)
-       /\ PrintT(<<"GEN", "Gen_StoredTimes", Len(R), Cardinality(Rows0), Cardinality(Rows1), Cardinality(Rows2)>>)
+       /\ PrintT(<<"GEN", "Gen_StoredTimes", Len(R), Cardinality(Rows0), Cardinality(Rows1), Cardinality(Rows2), Cardinality(Rows3)>>)
 ===========================================================================
